@@ -133,12 +133,17 @@ pub fn exec(line: &str) -> String {
         }
         "pred" => {
             let t = term!();
-            format!(
-                "{} {} {}",
-                t.has_free_variables() as u8,
-                t.is_supercombinator() as u8,
-                t.max_depth()
-            )
+            // C18 speaks about is_supercombinator on terms WITHOUT UD only: on a term containing Var(0) the bit is not
+            // part of the answer (printed as `-` by both sides), so a different treatment of UD there is not a difference
+            fn has_ud(t: &Term) -> bool {
+                match t {
+                    Var(i) => *i == 0,
+                    Abs(b) => has_ud(b),
+                    App(p) => has_ud(&p.0) || has_ud(&p.1),
+                }
+            }
+            let sc = if has_ud(&t) { "-".to_string() } else { (t.is_supercombinator() as u8).to_string() };
+            format!("{} {} {}", t.has_free_variables() as u8, sc, t.max_depth())
         }
         "iso" => {
             let t = term!();
